@@ -276,12 +276,9 @@ func (r *seqRig) addrIndex(a string) int64 {
 func newSeqRig() *seqRig {
 	r := &seqRig{rep: &reporter{}}
 	r.seed = sarama.NewMockBroker(r.rep, 100)
-	for i := 0; i < naddr; i++ {
-		b := sarama.NewMockBroker(r.rep, int32(200+i))
-		b.VerifC19SetHandler(func(sarama.VerifC19Request) interface{} { return nil })
-		r.pool = append(r.pool, b)
-	}
-	r.seed.VerifC19SetHandler(func(q sarama.VerifC19Request) interface{} {
+	// every listener answers metadata requests from the current view (the client asks its seed; a changed
+	// candidate order must not leave it waiting for a time-out)
+	handler := func(q sarama.VerifC19Request) interface{} {
 		if q.Kind != "MetadataRequest" {
 			r.rep.add("unexpected request " + q.Kind)
 			return nil
@@ -297,7 +294,13 @@ func newSeqRig() *seqRig {
 		topics := respond(v, ts)
 		r.served = append(r.served, served{Full: len(ts) == 0, View: r.cur, Topics: topics})
 		return buildResponse(q.Version, v, topics, r.addr)
-	})
+	}
+	for i := 0; i < naddr; i++ {
+		b := sarama.NewMockBroker(r.rep, int32(200+i))
+		b.VerifC19SetHandler(handler)
+		r.pool = append(r.pool, b)
+	}
+	r.seed.VerifC19SetHandler(handler)
 	return r
 }
 func (r *seqRig) close() {
@@ -850,6 +853,7 @@ type refRound struct {
 	Live  []int64 `json:"live_seeds"` // listeners of client.seedBrokers before the call (monitor)
 	Dead  []int64 `json:"dead_seeds"`
 	Known []int64 `json:"known"` // client.Brokers() before the call (monitor)
+	Err   string  `json:"err,omitempty"`
 }
 type refCase struct {
 	Seeds       []int64    `json:"seeds"` // candidates 100+listener, client order
@@ -1012,9 +1016,7 @@ func runRef(r *rand.Rand) (refCase, []string) {
 	rd.OK = err == nil
 	c.Rounds = append(c.Rounds, rd)
 	if err != nil {
-		if err != sarama.ErrOutOfBrokers {
-			rep.add("NewClient: " + err.Error())
-		}
+		c.Rounds[0].Err = err.Error()
 		// the constructor shuffles the seeds; without a client the order is read off the requests seen
 		// (only used when every seed failed: any order of the failing seeds gives the same observation up to order)
 		seen := map[int64]bool{}
@@ -1059,8 +1061,8 @@ func runRef(r *rand.Rand) (refCase, []string) {
 		rd.Tried = append([]int64{}, tried...)
 		mu.Unlock()
 		rd.OK = err == nil
-		if err != nil && err != sarama.ErrOutOfBrokers {
-			rep.add("RefreshMetadata: " + err.Error())
+		if err != nil {
+			rd.Err = err.Error()
 		}
 		c.Rounds = append(c.Rounds, rd)
 	}
@@ -1093,6 +1095,19 @@ func monitorRef(c refCase, harness []string) *cf.Monitor {
 		}
 		for _, l := range rd.Dead {
 			anyDead = anyDead || healthy(l)
+		}
+		// no seed is ever lost: each one is in the seed list or set aside
+		if rd.Live != nil || rd.Dead != nil {
+			have := append(append([]int64{}, rd.Live...), rd.Dead...)
+			want := append([]int64{}, c.SeedAddrs...)
+			sort.Slice(have, func(i, j int) bool { return have[i] < have[j] })
+			sort.Slice(want, func(i, j int) bool { return want[i] < want[j] })
+			if !eqList(have, want) {
+				return &cf.Monitor{Signature: "ref:seed-lost", What: fmt.Sprintf("round %d: seeds %v + set aside %v, given %v", i, rd.Live, rd.Dead, c.SeedAddrs)}
+			}
+		}
+		if !rd.OK && !anyLive && rd.Err != sarama.ErrOutOfBrokers.Error() {
+			return &cf.Monitor{Signature: "ref:unexpected-error-class", What: fmt.Sprintf("round %d: nobody answers, error %q", i, rd.Err)}
 		}
 		if anyLive && !rd.OK {
 			return &cf.Monitor{Signature: "ref:failed-although-a-candidate-answers", What: fmt.Sprintf("round %d: seeds %v known %v failing %v: call failed", i, rd.Live, rd.Known, rd.Fail)}
